@@ -9,7 +9,8 @@ import derivations
 
 LEVEL = "proof"
 RULE = ("random sums of tensor products (classes of alpha-variants with known "
-        "class count, near-misses, repeated tensors, deltas, denominators as "
+        "class count, near-misses, rewired copies (same tensors, other wiring "
+        "of the contracted indices), repeated tensors, deltas, denominators as "
         "symbolic tensors, explicit/Einstein targets) and simplify calls "
         "captured from real derivations; a case is non-trivial if the input "
         "has >= 2 terms; distinct = distinct (input, targets) text")
@@ -101,6 +102,60 @@ def einstein_ok(e, tg):
     return True
 
 
+def rewired(rng):
+    """two or three terms built from the same tensors with different wiring
+    of the contracted indices (same descriptions and index counts, alpha-
+    equivalent or not): T^{ab}_{xy} P_{..} Q_{..} with the multiset
+    {x, y, z, z} distributed over the four slots of P and Q, random naming"""
+    from adcgen.sympy_objects import (Amplitude, AntiSymmetricTensor,
+                                      NonSymmetricTensor)
+    occ, virt = G.pool("o", 6), G.pool("v", 6)
+    a, b = virt[0], virt[1]
+    tg = [a, b]
+    sp = rng.choice(["o", "v"])
+    terms = []
+    kindT = rng.choice(["amp", "anti"])
+    for _ in range(rng.choice([2, 2, 3])):
+        if sp == "o":
+            x, y, z = rng.sample(occ[:4], 3)
+            T = G.make_tensor("t1" if kindT == "amp" else "V", kindT,
+                              (a, b), (x, y), 0)
+        else:
+            x, y, z = rng.sample(virt[2:6], 3)
+            T = G.make_tensor("A", "anti", (x, y), (a, b), 0) \
+                * NonSymmetricTensor("w", (a, b))
+            tg = []
+        slots = [x, y, z, z]
+        rng.shuffle(slots)
+        terms.append(G.random_coef(rng) * T
+                     * NonSymmetricTensor("Pa", (slots[0], slots[1]))
+                     * NonSymmetricTensor("Pb", (slots[2], slots[3])))
+    return Add(*terms), tg
+
+
+def rewire_generic(rng):
+    """base + copy of base in which two indices of one space are exchanged
+    inside a single tensor only"""
+    occ, virt = G.pool("o", 6), G.pool("v", 6)
+    tg = [occ[0], virt[0]]
+    pools = {"o": occ[:4], "v": virt[:4]}
+    base = G.random_term(rng, rng.randint(2, 3), pools)
+    facs = list(Mul.make_args(base))
+    tens = [f for f in facs if f.atoms(Index)]
+    if not tens:
+        return base, tg
+    f = rng.choice(tens)
+    mine = sorted(f.atoms(Index), key=lambda s_: s_.name)
+    a = rng.choice(mine)
+    cand = [x for x in base.atoms(Index) if x.space == a.space and x != a]
+    if not cand:
+        return base, tg
+    b = rng.choice(sorted(cand, key=lambda s_: s_.name))
+    g = f.xreplace({a: b, b: a})
+    other = Mul(*[g if h is f else h for h in facs])
+    return G.random_coef(rng) * base + G.random_coef(rng) * other, tg
+
+
 def run(ctx):
     rng = ctx.rng
     simplify = simplify_fn()
@@ -138,6 +193,11 @@ def run(ctx):
         if e == 0:
             continue
         add(Expr(e, target_idx=tg), f"miss{n}")
+    for n in range(n_miss * 2):
+        e, tg = rewired(rng) if n % 2 else rewire_generic(rng)
+        if e == 0:
+            continue
+        add(Expr(e, target_idx=tg), f"rewire{n}")
     for label, E in derivations.captured_simplify_inputs(ctx, quick):
         add(E, label)
 
